@@ -784,8 +784,9 @@ def file_lines(hdr, insts, working=False, states=None):
     return lines
 
 
-def render(lines, seps=None):
-    """seps: {"<line key>:<k>": text} placed after the k-th token of that line (k = -1: before the first token)"""
+def render(lines, seps=None, eol="\n"):
+    """seps: {"<line key>:<k>": text} placed after the k-th token of that line (k = -1: before the first token);
+    eol: what stands between two records (Part 21 does not ask for a line break: "" and " " are as conforming as "\n")"""
     seps = seps or {}
     out = []
     for key, toks in lines:
@@ -793,7 +794,7 @@ def render(lines, seps=None):
         for k, (text, _) in enumerate(toks):
             s += text + seps.get("%s:%d" % (key, k), "")
         out.append(s)
-    return "\n".join(out) + "\n"
+    return eol.join(out) + eol
 
 
 SEP_SPACE = [" ", "  ", "   "]
